@@ -2,7 +2,7 @@ SPECIFICATION Spec
 CONSTANTS
   Part = "one"
   UNames <- UNone
-  UNames3 <- UNum
+  UNames3 <- UNumQ
   MaxLen = 2
   ArgsOne <- AScalar
   ArgsPair <- APairQ
